@@ -2,7 +2,7 @@
    All statements are about [step]/[run] with diagnostics off, no base and no state override. *)
 From Verif Require Import Lib.Base Lib.Utf8 Lib.GoStr Model.Cfg Gen.Tables Gen.Options Model.Sets Model.Percent
   Model.Url Model.Host Model.Machine Model.Api Model.Preds.
-From Verif Require Import Proofs.SetsProofs Proofs.Cleaning Proofs.PhaseLemmas Proofs.RecordInv Proofs.RoundTripBase.
+From Verif Require Import Proofs.SetsProofs Proofs.Cleaning Proofs.PhaseLemmas Proofs.RecordInv Proofs.RoundTripBase Proofs.RoundTripDecimal.
 From Verif Require Proofs.Utf8Proofs.
 From Coq Require Import Lia ZifyBool ZifyN ZifyNat.
 
@@ -32,6 +32,51 @@ Proof.
   pose proof (sweep128 (fun x => implb (scheme_char x) (is_schemechar x && (ascii_lower x =? x))) ltac:(vm_compute; reflexivity) x Hx) as S.
   cbv beta in S. rewrite H in S. cbn [implb] in S. apply andb_true_iff in S. destruct S as [S1 S2].
   repeat split; [exact S1|lia|exact Hx].
+Qed.
+
+Lemma digit_facts x : is_digit x = true -> isDigit x = true /\ x < 128.
+Proof.
+  intros H. assert (Hx : x < 128) by (unfold is_digit in H; lia). split; [|exact Hx].
+  pose proof (sweep128 (fun x => implb (is_digit x) (isDigit x)) ltac:(vm_compute; reflexivity) x Hx) as S.
+  cbv beta in S. rewrite H in S. exact S.
+Qed.
+
+
+(* the credentials loop on strings free of the userinfo set (which contains ':') *)
+Lemma userinfo_58 : RuneShouldBeEncoded pes_UserInfo 58 = true.
+Proof. reflexivity. Qed.
+
+Lemma cred_loop_pass c : forall l user pass,
+  none_in pes_UserInfo l = true -> cred_loop c l true user pass = (true, user, pass ++ l).
+Proof.
+  induction l as [|x l IH]; intros user pass H; [rewrite app_nil_r; reflexivity|].
+  apply none_in_cons in H. destruct H as [Hx Hl]. cbn [cred_loop negb]. rewrite andb_false_r.
+  rewrite (pe_id c _ x Hx), (IH _ _ Hl), <- app_assoc. reflexivity.
+Qed.
+
+Lemma cred_loop_user c : forall l tl user pass,
+  none_in pes_UserInfo l = true -> cred_loop c (l ++ tl) false user pass = cred_loop c tl false (user ++ l) pass.
+Proof.
+  induction l as [|x l IH]; intros tl user pass H; [rewrite app_nil_r; reflexivity|].
+  apply none_in_cons in H. destruct H as [Hx Hl]. cbn [app cred_loop negb].
+  assert (H58 : (x =? 58) = false).
+  { destruct (x =? 58) eqn:E; [|reflexivity]. apply N.eqb_eq in E. subst x. rewrite userinfo_58 in Hx. discriminate. }
+  rewrite H58. cbn [andb]. rewrite (pe_id c _ x Hx), (IH _ _ _ Hl), <- app_assoc. reflexivity.
+Qed.
+
+(* the serializer's userinfo, without the '@' *)
+Definition cred_str (user pass : str) : str := user ++ (if negb (is_nil pass) then 58 :: pass else []).
+
+Lemma cred_loop_cred c user pass :
+  none_in pes_UserInfo user = true -> none_in pes_UserInfo pass = true ->
+  exists pw, cred_loop c (cred_str user pass) false [] [] = (pw, user, pass).
+Proof.
+  intros Hu Hp. unfold cred_str. rewrite (cred_loop_user c user _ [] [] Hu). cbn [app].
+  destruct pass as [|y pass]; cbn [is_nil negb].
+  - exists false. reflexivity.
+  - exists true. remember (y :: pass) as pp eqn:Epp. cbn [cred_loop].
+    replace (58 =? 58) with true by reflexivity. cbn [negb andb].
+    rewrite (cred_loop_pass c _ _ _ Hp). reflexivity.
 Qed.
 
 Section Phases.
@@ -371,46 +416,592 @@ Section Phases.
     - cbn [flat_map app] in Hr. cbn [forallb] in Hg. rewrite andb_true_r in Hg.
       unfold seg_good in Hg. apply andb_true_iff in Hg. destruct Hg as [Hch Hnd]. apply negb_true_iff in Hnd.
       eapply reaches_finishes; [apply (seg_loop seg p [] a br pw u _ Hsp Hp Hr Hch)|].
-      cbn [app]. pose proof (rest_app (p + 1)%Z _ _ ltac:(lia) Hr) as Hr'.
+      cbn [app]. pose proof (rest_app (p + 1)%Z _ _ ltac:(blia) Hr) as Hr'.
       replace (p + 1 + len seg)%Z with (p + len seg + 1)%Z in Hr' by ring.
       pose proof (len_nonneg seg) as Hl.
       pose proof (path_commit_seg u seg false Hcol Hnd Hdrv) as Hpc.
       destruct oq as [q|]; cbn [q_tail with_q app] in *.
       + eapply reaches_finishes.
-        * eapply reaches_step; [apply (step_path_q (p + len seg)%Z _ a br pw _ _ ltac:(lia) Hr')|reflexivity].
-        * destruct (rest_uncons (p + len seg + 1)%Z _ _ ltac:(lia) Hr') as [_ [Hr2 _]]. rewrite Hpc.
+        * eapply reaches_step; [apply (step_path_q (p + len seg)%Z _ a br pw _ _ ltac:(blia) Hr')|reflexivity].
+        * destruct (rest_uncons (p + len seg + 1)%Z _ _ ltac:(blia) Hr') as [_ [Hr2 _]]. rewrite Hpc.
           eapply finishes_eq;
-            [apply (query_tail (p + len seg + 1)%Z a br pw _ q of ltac:(lia) Hr2);
+            [apply (query_tail (p + len seg + 1)%Z a br pw _ q of ltac:(blia) Hr2);
              [reflexivity|exact H35|apply Hq; reflexivity|exact Hf]|].
           destruct of; reflexivity.
       + destruct of as [f|]; cbn [f_tail with_f] in *.
         * eapply reaches_finishes.
-          -- eapply reaches_step; [apply (step_path_h (p + len seg)%Z _ a br pw _ _ ltac:(lia) Hr')|reflexivity].
-          -- destruct (rest_uncons (p + len seg + 1)%Z _ _ ltac:(lia) Hr') as [_ [Hr2 _]]. rewrite Hpc.
-             eapply finishes_eq; [apply (frag_tail (p + len seg + 1)%Z a br pw _ f ltac:(lia) Hr2); apply Hf; reflexivity|].
+          -- eapply reaches_step; [apply (step_path_h (p + len seg)%Z _ a br pw _ _ ltac:(blia) Hr')|reflexivity].
+          -- destruct (rest_uncons (p + len seg + 1)%Z _ _ ltac:(blia) Hr') as [_ [Hr2 _]]. rewrite Hpc.
+             eapply finishes_eq; [apply (frag_tail (p + len seg + 1)%Z a br pw _ f ltac:(blia) Hr2); apply Hf; reflexivity|].
              reflexivity.
         * eapply finishes_eq.
-          -- eapply finishes_step; [apply (step_path_eof (p + len seg)%Z _ a br pw _ ltac:(lia) Hr')|reflexivity].
+          -- eapply finishes_step; [apply (step_path_eof (p + len seg)%Z _ a br pw _ ltac:(blia) Hr')|reflexivity].
           -- cbn [mk m_url]. rewrite Hpc. reflexivity.
     - cbn [flat_map] in Hr. rewrite <- !app_assoc in Hr. cbn [app] in Hr.
       cbn [forallb] in Hg. apply andb_true_iff in Hg. destruct Hg as [Hg Hgs].
       unfold seg_good in Hg. apply andb_true_iff in Hg. destruct Hg as [Hch Hnd]. apply negb_true_iff in Hnd.
       eapply reaches_finishes; [apply (seg_loop seg p [] a br pw u _ Hsp Hp Hr Hch)|].
-      cbn [app]. pose proof (rest_app (p + 1)%Z _ _ ltac:(lia) Hr) as Hr'.
+      cbn [app]. pose proof (rest_app (p + 1)%Z _ _ ltac:(blia) Hr) as Hr'.
       replace (p + 1 + len seg)%Z with (p + len seg + 1)%Z in Hr' by ring.
       pose proof (len_nonneg seg) as Hl.
       pose proof (path_commit_seg u seg true Hcol Hnd Hdrv) as Hpc.
       eapply reaches_finishes.
-      + eapply reaches_step; [apply (step_path_slash (p + len seg)%Z _ a br pw _ _ ltac:(lia) Hr')|reflexivity].
-      + destruct (rest_uncons (p + len seg + 1)%Z _ _ ltac:(lia) Hr') as [_ [Hr2 _]]. rewrite Hpc.
+      + eapply reaches_step; [apply (step_path_slash (p + len seg)%Z _ a br pw _ _ ltac:(blia) Hr')|reflexivity].
+      + destruct (rest_uncons (p + len seg + 1)%Z _ _ ltac:(blia) Hr') as [_ [Hr2 _]]. rewrite Hpc.
         eapply finishes_eq.
-        * apply (IH s1 (p + len seg + 1)%Z a br pw (addSegment u seg) oq of Hsp Hcol H35 ltac:(lia)).
-          -- rewrite Hr2, <- !app_assoc. reflexivity.
+        * apply (IH s1 (p + len seg + 1)%Z a br pw (addSegment u seg) oq of Hsp Hcol H35 ltac:(blia)).
+          -- rewrite Hr2, <- ?app_assoc. reflexivity.
           -- exact Hgs.
           -- intros _ E. exfalso. cbn [addSegment set_path u_path] in E. destruct (u_path u); discriminate E.
           -- exact Hq.
           -- exact Hf.
         * cbn [addSegment set_path u_path]. rewrite <- app_assoc. cbn [app].
           destruct oq, of; reflexivity.
+  Qed.
+
+  (* a code point that does not end the segment, whether or not it is in the path set *)
+  Lemma step_path_any p buf a br pw u x l :
+    c_singlePct c = false ->
+    (-1 <= p)%Z -> rest (p + 1) = x :: l ->
+    (x =? 47) = false -> (IsSpecialScheme c u && (x =? 92)) = false -> (x =? 63) = false -> (x =? 35) = false ->
+    stepf (mk PathSt p false buf a br pw u) =
+    Cont (mk PathSt (p + 1) false (buf ++ percentEncodeRune c x (Some (c_pathSet c))) a br pw u).
+  Proof using Hrep Hfail.
+    intros Hsp Hp Hr H1 H2 H3 H4. destruct (rest_uncons (p + 1)%Z _ _ ltac:(lia) Hr) as [Hc [Hr' Hn]].
+    unfold_step. replace (n <=? p + 1)%Z with false by lia. cbv beta iota. rewrite Hc.
+    unfold isSpecialSchemeAndBackslash. rewrite H1, H2, H3, H4. cbn [negb orb andb].
+    quiet_enc; unfold percentEncodeInvalidRune; rewrite ?Hsp; reflexivity.
+  Qed.
+
+  (* the "/." guard of the serializer: PathSt drops the single-dot segment *)
+  Lemma dot_enc_single : forall t,
+    isSingleDotPathSegment (percentEncodeRune c 46 (Some t)) = true /\
+    isDoubleDotPathSegment (percentEncodeRune c 46 (Some t)) = false.
+  Proof using.
+    intros t. unfold percentEncodeRune. destruct (RuneShouldBeEncoded t 46); [|split; reflexivity].
+    destruct (c_latin1 c); split; reflexivity.
+  Qed.
+
+  Lemma guard_phase p a br pw u l :
+    c_singlePct c = false ->
+    (-1 <= p)%Z -> rest (p + 1) = 46 :: 47 :: l ->
+    reaches (mk PathSt p false [] a br pw u) (mk PathSt (p + 1 + 1) false [] a br pw u).
+  Proof using Hrep Hfail.
+    intros Hsp Hp Hr. destruct (rest_uncons (p + 1)%Z _ _ ltac:(lia) Hr) as [_ [Hr' _]].
+    eapply reaches_trans.
+    - eapply reaches_step;
+        [apply (step_path_any p [] a br pw u 46 _ Hsp Hp Hr); try reflexivity; apply andb_false_r|reflexivity].
+    - eapply reaches_eq.
+      + eapply reaches_step; [apply (step_path_slash (p + 1)%Z _ a br pw u _ ltac:(lia) Hr')|reflexivity].
+      + f_equal. cbn [app]. destruct (dot_enc_single (c_pathSet c)) as [E1 E2].
+        unfold path_commit. cbv zeta. rewrite E1, E2. reflexivity.
+  Qed.
+
+  (* ---------------- PathOrAuthority ---------------- *)
+  Lemma step_poa_path p buf a br pw u tl :
+    (-1 <= p)%Z -> rest (p + 1) = tl -> has_prefix [47] tl = false ->
+    stepf (mk PathOrAuthority p false buf a br pw u) = Cont (mk PathSt (p + 1 - 1) false buf a br pw u).
+  Proof using Hrep Hfail.
+    intros Hp Hr Htl. unfold_step. destruct tl as [|x l].
+    - pose proof (rest_empty (p + 1)%Z ltac:(lia) Hr) as Hn.
+      replace (n <=? p + 1)%Z with true by lia. cbv beta iota.
+      replace (rune_error =? 47) with false by reflexivity. reflexivity.
+    - destruct (rest_uncons (p + 1)%Z _ _ ltac:(lia) Hr) as [Hc [Hr' Hn]].
+      replace (n <=? p + 1)%Z with false by lia. cbv beta iota. rewrite Hc.
+      cbn [has_prefix] in Htl. rewrite andb_true_r, N.eqb_sym in Htl. rewrite Htl. reflexivity.
+  Qed.
+
+  Lemma step_poa_auth p buf a br pw u l :
+    (-1 <= p)%Z -> rest (p + 1) = 47 :: l ->
+    stepf (mk PathOrAuthority p false buf a br pw u) = Cont (mk Authority (p + 1) false buf a br pw u).
+  Proof using Hrep Hfail.
+    intros Hp Hr. destruct (rest_uncons (p + 1)%Z _ _ ltac:(lia) Hr) as [Hc [Hr' Hn]].
+    unfold_step. replace (n <=? p + 1)%Z with false by lia. cbv beta iota. rewrite Hc. reflexivity.
+  Qed.
+
+  (* ---------------- SpecialAuthoritySlashes / SpecialAuthorityIgnoreSlashes ---------------- *)
+  Lemma step_sas p buf a br pw u l :
+    (-1 <= p)%Z -> rest (p + 1) = 47 :: 47 :: l ->
+    stepf (mk SpecialAuthoritySlashes p false buf a br pw u) =
+    Cont (mk SpecialAuthorityIgnoreSlashes (p + 1 + 1) false buf a br pw u).
+  Proof using Hrep Hfail.
+    intros Hp Hr. destruct (rest_uncons (p + 1)%Z _ _ ltac:(lia) Hr) as [Hc [Hr' Hn]].
+    destruct (rest_uncons (p + 1 + 1)%Z _ _ ltac:(lia) Hr') as [_ [_ Hn2]].
+    unfold_step. replace (n <=? p + 1)%Z with false by lia. cbv beta iota. rewrite Hc.
+    unfold remainingStartsWith. rewrite Hr'. cbn [length firstn list_eqb].
+    replace (47 =? 47) with true by reflexivity. cbn [andb].
+    replace (n <=? p + 1 + 1)%Z with false by lia. reflexivity.
+  Qed.
+
+  Lemma step_sais p buf a br pw u x l :
+    (-1 <= p)%Z -> rest (p + 1) = x :: l -> (x =? 47) = false -> (x =? 92) = false ->
+    stepf (mk SpecialAuthorityIgnoreSlashes p false buf a br pw u) = Cont (mk Authority (p + 1 - 1) false buf a br pw u).
+  Proof using Hrep Hfail.
+    intros Hp Hr H1 H2. destruct (rest_uncons (p + 1)%Z _ _ ltac:(lia) Hr) as [Hc [Hr' Hn]].
+    unfold_step. replace (n <=? p + 1)%Z with false by lia. cbv beta iota. rewrite Hc, H1, H2. reflexivity.
+  Qed.
+
+  (* ---------------- Authority ---------------- *)
+  Definition at_end (tl : list N) : bool :=
+    match tl with [] => true | x :: _ => (x =? 47) || (x =? 63) || (x =? 35) end.
+
+  Definition auth_char (sp : bool) (x : N) : bool :=
+    negb (x =? 64) && negb ((x =? 47) || (x =? 63) || (x =? 35)) && negb (sp && (x =? 92)) && (x <? 128).
+
+  Lemma step_auth_char p buf a br pw u x l :
+    (-1 <= p)%Z -> rest (p + 1) = x :: l -> auth_char (IsSpecialScheme c u) x = true ->
+    stepf (mk Authority p false buf a br pw u) = Cont (mk Authority (p + 1) false (buf ++ [x]) a br pw u).
+  Proof using Hrep Hfail.
+    intros Hp Hr Hx. destruct (rest_uncons (p + 1)%Z _ _ ltac:(lia) Hr) as [Hc [Hr' Hn]].
+    unfold auth_char in Hx.
+    apply andb_true_iff in Hx. destruct Hx as [Hx H4]. apply andb_true_iff in Hx. destruct Hx as [Hx H3].
+    apply andb_true_iff in Hx. destruct Hx as [H1 H2]. apply negb_true_iff in H1, H2, H3.
+    unfold_step. replace (n <=? p + 1)%Z with false by lia. cbv beta iota. rewrite Hc, H1.
+    unfold isSpecialSchemeAndBackslash. cbn [orb]. rewrite H2, H3. cbn [orb].
+    rewrite (Utf8Proofs.utf8_enc_ascii x ltac:(lia)). reflexivity.
+  Qed.
+
+  Lemma auth_scan : forall X p buf a br pw u tl,
+    (-1 <= p)%Z -> rest (p + 1) = X ++ tl -> forallb (auth_char (IsSpecialScheme c u)) X = true ->
+    reaches (mk Authority p false buf a br pw u) (mk Authority (p + len X) false (buf ++ X) a br pw u).
+  Proof using Hrep Hfail.
+    induction X as [|x l IH]; intros p buf a br pw u tl Hp Hr Hl.
+    - rewrite len_nil, Z.add_0_r, app_nil_r. apply reaches_refl.
+    - cbn [forallb] in Hl. apply andb_true_iff in Hl. destruct Hl as [Hx Hl].
+      cbn [app] in Hr. destruct (rest_uncons (p + 1)%Z x _ ltac:(lia) Hr) as [Hc [Hr' Hn]].
+      eapply reaches_trans.
+      + eapply reaches_step; [apply (step_auth_char p buf a br pw u x _ Hp Hr Hx)|reflexivity].
+      + eapply reaches_eq; [apply (IH (p + 1)%Z _ a br pw _ tl ltac:(lia) Hr' Hl)|].
+        rewrite len_cons, <- app_assoc. cbn [app]. f_equal. lia.
+  Qed.
+
+  (* the '@': the buffer is split at its first ':' *)
+  Lemma step_auth_at p buf br u l :
+    (-1 <= p)%Z -> rest (p + 1) = 64 :: l ->
+    stepf (mk Authority p false buf false br false u) =
+    (let '(pw', user', pass') := cred_loop c (runes buf) false (u_username u) (u_password u) in
+     Cont (mk Authority (p + 1) false [] true br pw' (set_password (set_username u user') pass'))).
+  Proof using Hrep Hfail.
+    intros Hp Hr. destruct (rest_uncons (p + 1)%Z _ _ ltac:(lia) Hr) as [Hc [Hr' Hn]].
+    unfold_step. replace (n <=? p + 1)%Z with false by lia. cbv beta iota. rewrite Hc.
+    replace (64 =? 64) with true by reflexivity. cbv iota. rewrite (mherr_quiet c Hrep Hfail). reflexivity.
+  Qed.
+
+  Lemma step_auth_end p buf a br pw u tl :
+    (-1 <= p)%Z -> rest (p + 1) = tl -> at_end tl = true -> a && is_nil buf = false ->
+    stepf (mk Authority p false buf a br pw u) = Cont (mk HostSt (p + 1 - (len (runes buf) + 1)) false [] a br pw u).
+  Proof using Hrep Hfail.
+    intros Hp Hr He Ha. unfold_step. destruct tl as [|x l].
+    - pose proof (rest_empty (p + 1)%Z ltac:(lia) Hr) as Hn.
+      replace (n <=? p + 1)%Z with true by lia. cbv beta iota.
+      replace (rune_error =? 64) with false by reflexivity. cbn [orb]. rewrite Ha. reflexivity.
+    - destruct (rest_uncons (p + 1)%Z _ _ ltac:(lia) Hr) as [Hc [Hr' Hn]].
+      replace (n <=? p + 1)%Z with false by lia. cbv beta iota. rewrite Hc.
+      cbn [at_end] in He.
+      assert (H64 : (x =? 64) = false) by lia. rewrite H64. cbn [orb]. rewrite He. cbn [orb]. rewrite Ha. reflexivity.
+  Qed.
+
+  (* ---------------- HostSt ---------------- *)
+  Definition all_good : Prop := forall q b, rune_at inp q <> Some (Bad b).
+
+  Definition br_next (br : bool) (r : N) : bool := if r =? 91 then true else if r =? 93 then false else br.
+
+  Lemma step_host_char p buf a br pw u x l :
+    all_good -> (-1 <= p)%Z -> rest (p + 1) = x :: l ->
+    ((x =? 58) && negb br) = false -> ((x =? 47) || (x =? 63) || (x =? 35)) = false ->
+    (IsSpecialScheme c u && (x =? 92)) = false -> x < 128 ->
+    stepf (mk HostSt p false buf a br pw u) = Cont (mk HostSt (p + 1) false (buf ++ [x]) a (br_next br x) pw u).
+  Proof using Hrep Hfail.
+    intros Hgood Hp Hr H1 H2 H3 H4. destruct (rest_uncons (p + 1)%Z _ _ ltac:(lia) Hr) as [Hc [Hr' Hn]].
+    unfold_step. replace (n <=? p + 1)%Z with false by lia. cbv beta iota. rewrite Hc.
+    cbn [andb orb]. rewrite H1. unfold isSpecialSchemeAndBackslash. rewrite H2, H3. cbn [orb].
+    rewrite (Utf8Proofs.utf8_enc_ascii x H4). unfold br_next.
+    destruct (rune_at inp (p + 1)) as [[g|b]|] eqn:E; try reflexivity.
+    exfalso. exact (Hgood _ _ E).
+  Qed.
+
+  Lemma step_host_colon p buf a pw u l host :
+    (-1 <= p)%Z -> rest (p + 1) = 58 :: l -> is_nil buf = false ->
+    parseHost idna_raw c u buf (negb (IsSpecialScheme c u)) = Ok u host ->
+    stepf (mk HostSt p false buf a false pw u) = Cont (mk PortSt (p + 1) false [] a false pw (set_host u (Some host))).
+  Proof using Hrep Hfail.
+    intros Hp Hr Hb Hph. destruct (rest_uncons (p + 1)%Z _ _ ltac:(lia) Hr) as [Hc [Hr' Hn]].
+    unfold_step. replace (n <=? p + 1)%Z with false by lia. cbv beta iota. rewrite Hc.
+    cbn [andb orb]. replace (58 =? 58) with true by reflexivity. cbn [andb negb]. rewrite Hb, Hph. reflexivity.
+  Qed.
+
+  Lemma step_host_end p buf a br pw u tl host :
+    (-1 <= p)%Z -> rest (p + 1) = tl -> at_end tl = true ->
+    IsSpecialScheme c u && is_nil buf = false ->
+    parseHost idna_raw c u buf (negb (IsSpecialScheme c u)) = Ok u host ->
+    stepf (mk HostSt p false buf a br pw u) = Cont (mk PathStart (p + 1 - 1) false [] a br pw (set_host u (Some host))).
+  Proof using Hrep Hfail.
+    intros Hp Hr He Hb Hph. unfold_step. destruct tl as [|x l].
+    - pose proof (rest_empty (p + 1)%Z ltac:(lia) Hr) as Hn.
+      replace (n <=? p + 1)%Z with true by lia. cbv beta iota.
+      replace (rune_error =? 58) with false by reflexivity. cbn [andb orb]. rewrite Hb, Hph. reflexivity.
+    - destruct (rest_uncons (p + 1)%Z _ _ ltac:(lia) Hr) as [Hc [Hr' Hn]].
+      replace (n <=? p + 1)%Z with false by lia. cbv beta iota. rewrite Hc.
+      cbn [at_end] in He.
+      assert (H58 : (x =? 58) = false) by lia. rewrite H58. cbn [andb orb]. rewrite He. cbn [orb].
+      rewrite Hb, Hph. reflexivity.
+  Qed.
+
+  Lemma host_loop : forall h p buf a br pw u tl,
+    all_good -> (-1 <= p)%Z -> rest (p + 1) = h ++ tl -> hscan (IsSpecialScheme c u) br h = true ->
+    forallb (fun x => x <? 128) h = true ->
+    reaches (mk HostSt p false buf a br pw u) (mk HostSt (p + len h) false (buf ++ h) a (hbr br h) pw u).
+  Proof using Hrep Hfail.
+    induction h as [|x l IH]; intros p buf a br pw u tl Hgood Hp Hr Hs Hl.
+    - rewrite len_nil, Z.add_0_r, app_nil_r. apply reaches_refl.
+    - cbn [forallb] in Hl. apply andb_true_iff in Hl. destruct Hl as [Hx Hl].
+      cbn [hscan] in Hs. apply andb_true_iff in Hs. destruct Hs as [Hs Hs3].
+      apply andb_true_iff in Hs. destruct Hs as [Hs1 Hs2]. apply negb_true_iff in Hs1, Hs2.
+      apply orb_false_iff in Hs2. destruct Hs2 as [Hs2 Hs4].
+      cbn [app] in Hr. destruct (rest_uncons (p + 1)%Z x _ ltac:(lia) Hr) as [Hc [Hr' Hn]].
+      eapply reaches_trans.
+      + eapply reaches_step; [apply (step_host_char p buf a br pw u x _ Hgood Hp Hr Hs1 Hs2 Hs4 ltac:(lia))|reflexivity].
+      + eapply reaches_eq; [apply (IH (p + 1)%Z _ a _ pw _ tl Hgood ltac:(lia) Hr' Hs3 Hl)|].
+        rewrite len_cons, <- app_assoc. cbn [app hbr]. unfold br_next. f_equal. lia.
+  Qed.
+
+  (* ---------------- PortSt ---------------- *)
+  Lemma step_port_digit p buf a br pw u x l :
+    (-1 <= p)%Z -> rest (p + 1) = x :: l -> is_digit x = true ->
+    stepf (mk PortSt p false buf a br pw u) = Cont (mk PortSt (p + 1) false (buf ++ [x]) a br pw u).
+  Proof using Hrep Hfail.
+    intros Hp Hr Hx. destruct (rest_uncons (p + 1)%Z _ _ ltac:(lia) Hr) as [Hc [Hr' Hn]].
+    destruct (digit_facts x Hx) as [F1 F2].
+    unfold_step. replace (n <=? p + 1)%Z with false by lia. cbv beta iota. rewrite Hc, F1.
+    rewrite (Utf8Proofs.utf8_enc_ascii x F2). reflexivity.
+  Qed.
+
+  Lemma port_loop : forall d p buf a br pw u tl,
+    (-1 <= p)%Z -> rest (p + 1) = d ++ tl -> forallb is_digit d = true ->
+    reaches (mk PortSt p false buf a br pw u) (mk PortSt (p + len d) false (buf ++ d) a br pw u).
+  Proof using Hrep Hfail.
+    induction d as [|x l IH]; intros p buf a br pw u tl Hp Hr Hl.
+    - rewrite len_nil, Z.add_0_r, app_nil_r. apply reaches_refl.
+    - cbn [forallb] in Hl. apply andb_true_iff in Hl. destruct Hl as [Hx Hl].
+      cbn [app] in Hr. destruct (rest_uncons (p + 1)%Z x _ ltac:(lia) Hr) as [Hc [Hr' Hn]].
+      eapply reaches_trans.
+      + eapply reaches_step; [apply (step_port_digit p buf a br pw u x _ Hp Hr Hx)|reflexivity].
+      + eapply reaches_eq; [apply (IH (p + 1)%Z _ a br pw _ tl ltac:(lia) Hr' Hl)|].
+        rewrite len_cons, <- app_assoc. cbn [app]. f_equal. lia.
+  Qed.
+
+  Lemma step_port_end p buf a br pw u tl :
+    (-1 <= p)%Z -> rest (p + 1) = tl -> at_end tl = true -> is_nil buf = false ->
+    (65535 <? digits_val 10 buf) = false ->
+    stepf (mk PortSt p false buf a br pw u) =
+    Cont (mk PathStart (p + 1 - 1) false [] a br pw
+            (cleanDefaultPort c (set_port u (Some (itoa (digits_val 10 buf))) (digits_val 10 buf)))).
+  Proof using Hrep Hfail.
+    intros Hp Hr He Hb Hv. unfold_step. destruct tl as [|x l].
+    - pose proof (rest_empty (p + 1)%Z ltac:(lia) Hr) as Hn.
+      replace (n <=? p + 1)%Z with true by lia. cbv beta iota.
+      replace (isDigit rune_error) with false by reflexivity. cbn [orb negb]. rewrite Hb, Hv. reflexivity.
+    - destruct (rest_uncons (p + 1)%Z _ _ ltac:(lia) Hr) as [Hc [Hr' Hn]].
+      replace (n <=? p + 1)%Z with false by lia. cbv beta iota. rewrite Hc.
+      cbn [at_end] in He.
+      assert (Hd : isDigit x = false).
+      { apply orb_true_iff in He. destruct He as [He|He]; [apply orb_true_iff in He; destruct He as [He|He]|];
+          apply N.eqb_eq in He; subst x; reflexivity. }
+      rewrite Hd. cbn [orb]. rewrite He. cbn [orb negb]. rewrite Hb, Hv. reflexivity.
+  Qed.
+
+  (* ---------------- PathStart ---------------- *)
+  Lemma step_pathstart_slash p buf a br pw u l :
+    (-1 <= p)%Z -> rest (p + 1) = 47 :: l ->
+    stepf (mk PathStart p false buf a br pw u) = Cont (mk PathSt (p + 1) false buf a br pw u).
+  Proof using Hrep Hfail.
+    intros Hp Hr. destruct (rest_uncons (p + 1)%Z _ _ ltac:(lia) Hr) as [Hc [Hr' Hn]].
+    unfold_step. replace (n <=? p + 1)%Z with false by lia. cbv beta iota. rewrite Hc.
+    destruct (IsSpecialScheme c u && negb (c_skipTrailSlash c)); reflexivity.
+  Qed.
+
+  Lemma step_pathstart_q p buf a br pw u l :
+    (-1 <= p)%Z -> rest (p + 1) = 63 :: l -> IsSpecialScheme c u = false ->
+    stepf (mk PathStart p false buf a br pw u) = Cont (mk QuerySt (p + 1) false buf a br pw (set_query u (Some []))).
+  Proof using Hrep Hfail.
+    intros Hp Hr Hs. destruct (rest_uncons (p + 1)%Z _ _ ltac:(lia) Hr) as [Hc [Hr' Hn]].
+    unfold_step. replace (n <=? p + 1)%Z with false by lia. cbv beta iota. rewrite Hc, Hs. reflexivity.
+  Qed.
+
+  Lemma step_pathstart_h p buf a br pw u l :
+    (-1 <= p)%Z -> rest (p + 1) = 35 :: l -> IsSpecialScheme c u = false ->
+    stepf (mk PathStart p false buf a br pw u) = Cont (mk FragmentSt (p + 1) false buf a br pw (set_fragment u (Some []))).
+  Proof using Hrep Hfail.
+    intros Hp Hr Hs. destruct (rest_uncons (p + 1)%Z _ _ ltac:(lia) Hr) as [Hc [Hr' Hn]].
+    unfold_step. replace (n <=? p + 1)%Z with false by lia. cbv beta iota. rewrite Hc, Hs. reflexivity.
+  Qed.
+
+  Lemma step_pathstart_eof p buf a br pw u :
+    (-1 <= p)%Z -> rest (p + 1) = [] -> IsSpecialScheme c u = false ->
+    stepf (mk PathStart p false buf a br pw u) = Cont (mk PathStart (p + 1) true buf a br pw u).
+  Proof using Hrep Hfail.
+    intros Hp Hr Hs. pose proof (rest_empty (p + 1)%Z ltac:(lia) Hr) as Hn.
+    unfold_step. replace (n <=? p + 1)%Z with true by lia. cbv beta iota. rewrite Hs. reflexivity.
+  Qed.
+
+  (* ---------------- File / FileSlash / FileHost ---------------- *)
+  Lemma step_file_slash p buf a br pw u l :
+    (-1 <= p)%Z -> rest (p + 1) = 47 :: l ->
+    stepf (mk File p false buf a br pw u) =
+    Cont (mk FileSlash (p + 1) false buf a br pw (set_host (set_scheme u s_file) (Some []))).
+  Proof using Hrep Hfail.
+    intros Hp Hr. destruct (rest_uncons (p + 1)%Z _ _ ltac:(lia) Hr) as [Hc [Hr' Hn]].
+    unfold_step. replace (n <=? p + 1)%Z with false by lia. cbv beta iota. rewrite Hc. reflexivity.
+  Qed.
+
+  Lemma step_fileslash_slash p buf a br pw u l :
+    (-1 <= p)%Z -> rest (p + 1) = 47 :: l ->
+    stepf (mk FileSlash p false buf a br pw u) = Cont (mk FileHost (p + 1) false buf a br pw u).
+  Proof using Hrep Hfail.
+    intros Hp Hr. destruct (rest_uncons (p + 1)%Z _ _ ltac:(lia) Hr) as [Hc [Hr' Hn]].
+    unfold_step. replace (n <=? p + 1)%Z with false by lia. cbv beta iota. rewrite Hc. reflexivity.
+  Qed.
+
+  Definition fh_char (x : N) : bool :=
+    negb ((x =? 47) || (x =? 92) || (x =? 63) || (x =? 35)) && (x <? 128).
+
+  Lemma step_filehost_char p buf a br pw u x l :
+    (-1 <= p)%Z -> rest (p + 1) = x :: l -> fh_char x = true ->
+    stepf (mk FileHost p false buf a br pw u) = Cont (mk FileHost (p + 1) false (buf ++ [x]) a br pw u).
+  Proof using Hrep Hfail.
+    intros Hp Hr Hx. destruct (rest_uncons (p + 1)%Z _ _ ltac:(lia) Hr) as [Hc [Hr' Hn]].
+    unfold fh_char in Hx. apply andb_true_iff in Hx. destruct Hx as [H1 H2]. apply negb_true_iff in H1.
+    unfold_step. replace (n <=? p + 1)%Z with false by lia. cbv beta iota. rewrite Hc.
+    cbn [orb]. rewrite H1. rewrite (Utf8Proofs.utf8_enc_ascii x ltac:(lia)). reflexivity.
+  Qed.
+
+  Lemma filehost_loop : forall h p buf a br pw u tl,
+    (-1 <= p)%Z -> rest (p + 1) = h ++ tl -> forallb fh_char h = true ->
+    reaches (mk FileHost p false buf a br pw u) (mk FileHost (p + len h) false (buf ++ h) a br pw u).
+  Proof using Hrep Hfail.
+    induction h as [|x l IH]; intros p buf a br pw u tl Hp Hr Hl.
+    - rewrite len_nil, Z.add_0_r, app_nil_r. apply reaches_refl.
+    - cbn [forallb] in Hl. apply andb_true_iff in Hl. destruct Hl as [Hx Hl].
+      cbn [app] in Hr. destruct (rest_uncons (p + 1)%Z x _ ltac:(lia) Hr) as [Hc [Hr' Hn]].
+      eapply reaches_trans.
+      + eapply reaches_step; [apply (step_filehost_char p buf a br pw u x _ Hp Hr Hx)|reflexivity].
+      + eapply reaches_eq; [apply (IH (p + 1)%Z _ a br pw _ tl ltac:(lia) Hr' Hl)|].
+        rewrite len_cons, <- app_assoc. cbn [app]. f_equal. lia.
+  Qed.
+
+  (* the end of the file host, before a '/' *)
+  Lemma step_filehost_empty p a br pw u l :
+    (-1 <= p)%Z -> rest (p + 1) = 47 :: l ->
+    stepf (mk FileHost p false [] a br pw u) = Cont (mk PathStart (p + 1 - 1) false [] a br pw (set_host u (Some []))).
+  Proof using Hrep Hfail.
+    intros Hp Hr. destruct (rest_uncons (p + 1)%Z _ _ ltac:(lia) Hr) as [Hc [Hr' Hn]].
+    unfold_step. replace (n <=? p + 1)%Z with false by lia. cbv beta iota. rewrite Hc. reflexivity.
+  Qed.
+
+  Lemma step_filehost_host p buf a br pw u l host :
+    (-1 <= p)%Z -> rest (p + 1) = 47 :: l -> isWindowsDriveLetter buf = false -> is_nil buf = false ->
+    parseHost idna_raw c u buf (negb (IsSpecialScheme c u)) = Ok u host -> str_eqb host s_localhost = false ->
+    stepf (mk FileHost p false buf a br pw u) = Cont (mk PathStart (p + 1 - 1) false [] a br pw (set_host u (Some host))).
+  Proof using Hrep Hfail.
+    intros Hp Hr Hd Hb Hph Hl. destruct (rest_uncons (p + 1)%Z _ _ ltac:(lia) Hr) as [Hc [Hr' Hn]].
+    unfold_step. replace (n <=? p + 1)%Z with false by lia. cbv beta iota. rewrite Hc.
+    replace (47 =? 47) with true by reflexivity. cbn [orb negb andb]. rewrite Hd, Hb, Hph, Hl. reflexivity.
+  Qed.
+
+  (* ---------------- the authority as a whole ---------------- *)
+  Definition cred_part (user pass : str) : str :=
+    if negb (is_nil user) || negb (is_nil pass) then cred_str user pass ++ [64] else [].
+  Definition port_part (op : option str) : str := match op with Some d => 58 :: d | None => [] end.
+  Definition with_port (u : url) (op : option str) : url :=
+    match op with Some d => set_port u (Some d) (digits_val 10 d) | None => u end.
+
+  Lemma userinfo_auth_char sp x : RuneShouldBeEncoded pes_UserInfo x = false -> auth_char sp x = true.
+  Proof using All.
+    intros H. assert (Hx : x < 128).
+    { unfold RuneShouldBeEncoded in H. destruct (bs_test (bits pes_UserInfo) x); [rewrite orb_true_r in H; discriminate|]. lia. }
+    pose proof (sweep128 (fun x => implb (negb (RuneShouldBeEncoded pes_UserInfo x)) (auth_char true x && auth_char false x))
+                  ltac:(vm_compute; reflexivity) x Hx) as S.
+    cbv beta in S. rewrite H in S. cbn [negb implb] in S. apply andb_true_iff in S. destruct sp; apply S.
+  Qed.
+
+  Lemma cred_str_auth sp user pass :
+    none_in pes_UserInfo user = true -> none_in pes_UserInfo pass = true ->
+    forallb (auth_char sp) (cred_str user pass) = true /\ Forall (fun b => b < 128) (cred_str user pass).
+  Proof using All.
+    intros Hu Hp.
+    assert (A : forall l, none_in pes_UserInfo l = true -> forallb (auth_char sp) l = true).
+    { intros l. unfold none_in. apply forallb_impl. intros x Hx. apply userinfo_auth_char. apply negb_true_iff. exact Hx. }
+    assert (A58 : auth_char sp 58 = true) by (destruct sp; reflexivity).
+    assert (F : forallb (auth_char sp) (cred_str user pass) = true).
+    { unfold cred_str. rewrite forallb_app, (A user Hu). destruct (negb (is_nil pass)); [|reflexivity].
+      cbn [forallb]. rewrite A58, (A pass Hp). reflexivity. }
+    split; [exact F|]. apply Forall_forall. intros x Hx. rewrite forallb_forall in F. specialize (F x Hx).
+    unfold auth_char in F. apply andb_true_iff in F. destruct F as [_ F]. lia.
+  Qed.
+
+  Lemma hscan_auth sp : forall h br,
+    hscan sp br h = true -> mem 64 h = false -> forallb (fun x => x <? 128) h = true ->
+    forallb (auth_char sp) h = true.
+  Proof using All.
+    induction h as [|x h IH]; intros br Hs H64 Hl; [reflexivity|].
+    cbn [hscan] in Hs. apply andb_true_iff in Hs. destruct Hs as [Hs Hs3].
+    apply andb_true_iff in Hs. destruct Hs as [_ Hs2]. apply negb_true_iff in Hs2.
+    apply orb_false_iff in Hs2. destruct Hs2 as [Hs2 Hs4].
+    cbn [forallb] in Hl. apply andb_true_iff in Hl. destruct Hl as [Hx Hl].
+    unfold mem in H64. cbn [existsb] in H64. apply orb_false_iff in H64. destruct H64 as [Hx64 H64].
+    cbn [forallb]. rewrite (IH _ Hs3 H64 Hl), andb_true_r.
+    unfold auth_char. rewrite Hs2, Hs4, Hx, N.eqb_sym, Hx64. reflexivity.
+  Qed.
+
+  Lemma port_auth sp d : forallb is_digit d = true -> forallb (auth_char sp) (58 :: d) = true.
+  Proof using All.
+    intros H. cbn [forallb]. replace (auth_char sp 58) with true by (destruct sp; reflexivity). cbn [andb].
+    revert H. apply forallb_impl. intros x Hx. unfold auth_char. unfold is_digit in Hx.
+    replace (x =? 64) with false by lia. replace ((x =? 47) || (x =? 63) || (x =? 35)) with false by lia.
+    replace (x =? 92) with false by lia. rewrite andb_false_r. cbn [negb andb]. lia.
+  Qed.
+
+  Lemma set_cred_eta u : u_username u = [] -> u_password u = [] -> set_password (set_username u []) [] = u.
+  Proof using All. destruct u. cbn. intros -> ->. reflexivity. Qed.
+
+  (* user[:password]@ *)
+  Lemma cred_phase p u user pass tl :
+    (-1 <= p)%Z -> rest (p + 1) = cred_part user pass ++ tl ->
+    u_username u = [] -> u_password u = [] ->
+    none_in pes_UserInfo user = true -> none_in pes_UserInfo pass = true ->
+    exists pw, reaches (mk Authority p false [] false false false u)
+      (mk Authority (p + len (cred_part user pass)) false [] (negb (is_nil user) || negb (is_nil pass)) false pw
+          (set_password (set_username u user) pass)).
+  Proof using All.
+    intros Hp Hr Hu0 Hp0 Hu Hpw. unfold cred_part in *.
+    destruct (negb (is_nil user) || negb (is_nil pass)) eqn:E.
+    - destruct (cred_str_auth (IsSpecialScheme c u) user pass Hu Hpw) as [F1 F2].
+      rewrite <- app_assoc in Hr. cbn [app] in Hr.
+      destruct (cred_loop_cred c user pass Hu Hpw) as [pw Hcl]. exists pw.
+      eapply reaches_trans; [apply (auth_scan _ p [] false false false u _ Hp Hr F1)|].
+      cbn [app]. pose proof (rest_app (p + 1)%Z _ _ ltac:(lia) Hr) as Hr'.
+      replace (p + 1 + len (cred_str user pass))%Z with (p + len (cred_str user pass) + 1)%Z in Hr' by ring.
+      pose proof (len_nonneg (cred_str user pass)) as Hl.
+      eapply reaches_eq.
+      + eapply reaches_step.
+        * rewrite (step_auth_at (p + len (cred_str user pass))%Z _ false u _ ltac:(lia) Hr').
+          rewrite (Utf8Proofs.runes_ascii _ F2), Hu0, Hp0, Hcl. reflexivity.
+        * reflexivity.
+      + rewrite len_app, len_cons, len_nil. f_equal. ring.
+    - apply orb_false_iff in E. destruct E as [E1 E2]. apply negb_false_iff in E1, E2.
+      apply is_nil_true in E1, E2. subst user pass. exists false.
+      rewrite len_nil, Z.add_0_r, (set_cred_eta u Hu0 Hp0). apply reaches_refl.
+  Qed.
+
+  Lemma default_port_keep u d : getSpecialScheme c (u_scheme u) <> Some d ->
+    cleanDefaultPort c (set_port u (Some d) (digits_val 10 d)) = set_port u (Some d) (digits_val 10 d).
+  Proof using.
+    intros H. unfold cleanDefaultPort. cbn [u_scheme set_port u_port].
+    destruct (getSpecialScheme c (u_scheme u)) as [dp|]; [|reflexivity].
+    destruct (str_eqb dp d) eqn:E; [|reflexivity]. apply str_eqb_eq in E. subst dp. congruence.
+  Qed.
+
+  Lemma auth_char_small sp X : forallb (auth_char sp) X = true -> Forall (fun b => b < 128) X.
+  Proof using All.
+    intros F. apply Forall_forall. intros x Hx. rewrite forallb_forall in F. specialize (F x Hx).
+    unfold auth_char in F. apply andb_true_iff in F. destruct F as [_ F]. lia.
+  Qed.
+
+  (* host[:port], scanned once by the authority state and once by the host and port states *)
+  Lemma host_port_phase p a pw u h op tl :
+    all_good -> (-1 <= p)%Z -> rest (p + 1) = h ++ port_part op ++ tl -> at_end tl = true ->
+    hscan (IsSpecialScheme c u) false h = true -> hbr false h = false -> mem 64 h = false ->
+    forallb (fun x => x <? 128) h = true ->
+    (h = [] -> IsSpecialScheme c u = false /\ a = false /\ op = None) ->
+    (forall u0, parseHost idna_raw c u0 h (negb (IsSpecialScheme c u)) = Ok u0 h) ->
+    (forall d, op = Some d -> canonical_decimal d = true /\ (digits_val 10 d <=? 65535) = true /\
+                              getSpecialScheme c (u_scheme u) <> Some d) ->
+    reaches (mk Authority p false [] a false pw u)
+      (mk PathStart (p + len (h ++ port_part op)) false [] a false pw (with_port (set_host u (Some h)) op)).
+  Proof using Hrep Hfail.
+    intros Hgood Hp Hr He Hs Hbr H64 Hsm Hnil Hph Hport.
+    set (sp := IsSpecialScheme c u) in *.
+    set (X := h ++ port_part op).
+    assert (HX : forallb (auth_char sp) X = true).
+    { unfold X. rewrite forallb_app, (hscan_auth sp h false Hs H64 Hsm). destruct op as [d|]; [|reflexivity].
+      destruct (Hport d eq_refl) as [Hc _]. unfold canonical_decimal in Hc. apply andb_true_iff in Hc.
+      destruct Hc as [Hc _]. apply andb_true_iff in Hc. destruct Hc as [_ Hc]. unfold port_part.
+      rewrite (port_auth sp d Hc). reflexivity. }
+    pose proof (auth_char_small sp X HX) as HXs.
+    assert (Hr' : rest (p + 1) = X ++ tl) by (unfold X; rewrite <- app_assoc; exact Hr).
+    pose proof (len_nonneg X) as HlX. pose proof (len_nonneg h) as Hlh.
+    eapply reaches_trans; [apply (auth_scan X p [] a false pw u tl Hp Hr' HX)|]. cbn [app].
+    pose proof (rest_app (p + 1)%Z _ _ ltac:(blia) Hr') as Hr2.
+    replace (p + 1 + len X)%Z with (p + len X + 1)%Z in Hr2 by ring.
+    eapply reaches_trans.
+    { eapply reaches_step.
+      - apply (step_auth_end (p + len X)%Z X a false pw u tl ltac:(blia) Hr2 He).
+        destruct a; [|reflexivity]. cbn [andb]. destruct X as [|x0 X0] eqn:EX; [|reflexivity].
+        exfalso. unfold X in EX. apply app_eq_nil in EX. destruct EX as [Eh _].
+        destruct (Hnil Eh) as [_ [Ea _]]. discriminate Ea.
+      - reflexivity. }
+    rewrite (Utf8Proofs.runes_ascii X HXs).
+    replace (p + len X + 1 - (len X + 1))%Z with p by ring.
+    eapply reaches_trans; [apply (host_loop h p [] a false pw u _ Hgood Hp Hr Hs Hsm)|].
+    cbn [app]. rewrite Hbr.
+    pose proof (rest_app (p + 1)%Z _ _ ltac:(blia) Hr) as Hr3.
+    replace (p + 1 + len h)%Z with (p + len h + 1)%Z in Hr3 by ring.
+    destruct op as [d|]; cbn [port_part with_port app] in *.
+    - destruct (Hport d eq_refl) as [Hc [Hv Hdp]].
+      assert (Hhne : is_nil h = false).
+      { destruct h; [|reflexivity]. destruct (Hnil eq_refl) as [_ [_ E]]. discriminate E. }
+      pose proof Hc as Hc'. unfold canonical_decimal in Hc'. apply andb_true_iff in Hc'. destruct Hc' as [Hc' _].
+      apply andb_true_iff in Hc'. destruct Hc' as [Hdne Hdig]. apply negb_true_iff in Hdne.
+      eapply reaches_trans.
+      { eapply reaches_step; [apply (step_host_colon (p + len h)%Z h a pw u _ h ltac:(blia) Hr3 Hhne (Hph u))|reflexivity]. }
+      destruct (rest_uncons (p + len h + 1)%Z _ _ ltac:(blia) Hr3) as [_ [Hr4 _]].
+      eapply reaches_trans; [apply (port_loop d (p + len h + 1)%Z [] a false pw _ tl ltac:(blia) Hr4 Hdig)|].
+      cbn [app]. pose proof (rest_app (p + len h + 1 + 1)%Z _ _ ltac:(blia) Hr4) as Hr5.
+      pose proof (len_nonneg d) as Hld.
+      replace (p + len h + 1 + 1 + len d)%Z with (p + len h + 1 + len d + 1)%Z in Hr5 by ring.
+      eapply reaches_eq.
+      + eapply reaches_step;
+          [apply (step_port_end (p + len h + 1 + len d)%Z d a false pw _ tl ltac:(blia) Hr5 He Hdne); clear - Hv; lia
+          |reflexivity].
+      + rewrite (itoa_digits_val d Hc). rewrite default_port_keep by exact Hdp.
+        f_equal. unfold X. rewrite len_app, len_cons. ring.
+    - cbn [app] in Hr3.
+      eapply reaches_eq.
+      + eapply reaches_step;
+          [apply (step_host_end (p + len h)%Z h a false pw u tl h ltac:(blia) Hr3 He); [|apply Hph];
+           destruct h; [|apply andb_false_r]; destruct (Hnil eq_refl) as [E _]; fold sp; rewrite E; reflexivity
+          |reflexivity].
+      + f_equal. unfold X. rewrite app_nil_r. ring.
+  Qed.
+
+  Theorem authority_phase p u user pass h op tl :
+    all_good -> (-1 <= p)%Z ->
+    rest (p + 1) = cred_part user pass ++ h ++ port_part op ++ tl -> at_end tl = true ->
+    u_username u = [] -> u_password u = [] ->
+    none_in pes_UserInfo user = true -> none_in pes_UserInfo pass = true ->
+    hscan (IsSpecialScheme c u) false h = true -> hbr false h = false -> mem 64 h = false ->
+    forallb (fun x => x <? 128) h = true ->
+    (h = [] -> IsSpecialScheme c u = false /\ user = [] /\ pass = [] /\ op = None) ->
+    (forall u0, parseHost idna_raw c u0 h (negb (IsSpecialScheme c u)) = Ok u0 h) ->
+    (forall d, op = Some d -> canonical_decimal d = true /\ (digits_val 10 d <=? 65535) = true /\
+                              getSpecialScheme c (u_scheme u) <> Some d) ->
+    exists a pw, reaches (mk Authority p false [] false false false u)
+      (mk PathStart (p + len (cred_part user pass ++ h ++ port_part op)) false [] a false pw
+         (with_port (set_host (set_password (set_username u user) pass) (Some h)) op)).
+  Proof using Hrep Hfail.
+    intros Hgood Hp Hr He Hu0 Hp0 Hu Hpw Hs Hbr H64 Hsm Hnil Hph Hport.
+    destruct (cred_phase p u user pass _ Hp Hr Hu0 Hp0 Hu Hpw) as [pw Hc1].
+    exists (negb (is_nil user) || negb (is_nil pass)), pw.
+    eapply reaches_trans; [exact Hc1|].
+    pose proof (rest_app (p + 1)%Z _ _ ltac:(blia) Hr) as Hr'.
+    pose proof (len_nonneg (cred_part user pass)) as Hl.
+    replace (p + 1 + len (cred_part user pass))%Z with (p + len (cred_part user pass) + 1)%Z in Hr' by ring.
+    eapply reaches_eq.
+    - apply (host_port_phase (p + len (cred_part user pass))%Z (negb (is_nil user) || negb (is_nil pass)) pw
+               (set_password (set_username u user) pass) h op tl Hgood ltac:(blia) Hr' He Hs Hbr H64 Hsm).
+      + intros Eh. destruct (Hnil Eh) as [E1 [E2 [E3 E4]]]. subst user pass. auto.
+      + exact Hph.
+      + exact Hport.
+    - f_equal. rewrite (len_app (cred_part user pass)). ring.
   Qed.
 End Phases.
